@@ -3,7 +3,8 @@
  * scripted in-memory stream carrying server frames.
  *
  * `ws.read frames=<kind><hex>,... calls=<buf>@<avail>,...`
- *   frames: b<hex> binary message, t<hex> text message, p<hex> ping, c close
+ *   frames: b<hex> binary message, t<hex> text message, p<hex> ping, c close, x<hex> raw bytes (e.g. a malformed
+ *           frame), e end of stream (the socket reports EOF once everything before it has been read)
  *   calls:  one `read` per entry with a buffer of <buf> bytes, after <avail> more bytes of the framed
  *           stream have become readable on the socket
  * -> `res=ok reads=ok:<hex>|wouldblock|err,...`
@@ -15,6 +16,7 @@ use super::text::*;
 
 struct ScriptedSocket {
     data: Arc<Mutex<(Vec<u8>, usize, usize)>>,   // (framed stream, read position, readable limit)
+    eof: bool,                                   // the stream ends with EOF rather than staying open
 }
 
 impl Read for ScriptedSocket {
@@ -22,7 +24,9 @@ impl Read for ScriptedSocket {
         let mut guard = self.data.lock().unwrap();
         let (stream, position, limit) = &mut *guard;
         if *position >= *limit {
-            let _ = stream;
+            if self.eof && *limit >= stream.len() {
+                return Ok(0);
+            }
             return Err(std::io::Error::from(std::io::ErrorKind::WouldBlock));
         }
         let amount = usize::min(buf.len(), *limit - *position);
@@ -55,6 +59,7 @@ fn frame(opcode: u8, payload: &[u8]) -> Vec<u8> {
 pub(crate) fn cmd_ws_read(head: &str) -> Result<String, String> {
     let (_, kv) = split_kv(head);
     let mut stream = Vec::new();
+    let mut eof = false;
     for spec in get(&kv, "frames").unwrap_or("").split(',').filter(|s| !s.is_empty()) {
         let (kind, body) = spec.split_at(1);
         let payload = if body.is_empty() { Vec::new() } else { unhex(body)? };
@@ -63,11 +68,13 @@ pub(crate) fn cmd_ws_read(head: &str) -> Result<String, String> {
             "t" => stream.extend(frame(1, &payload)),
             "p" => stream.extend(frame(9, &payload)),
             "c" => stream.extend(frame(8, &[])),
+            "x" => stream.extend(payload),
+            "e" => eof = true,
             _ => return Err("bad frame kind".to_string()),
         }
     }
     let shared = Arc::new(Mutex::new((stream, 0usize, 0usize)));
-    let mut wrapper = crate::client::synchronous::threaded::verif_wrap_websocket(ScriptedSocket { data: shared.clone() });
+    let mut wrapper = crate::client::synchronous::threaded::verif_wrap_websocket(ScriptedSocket { data: shared.clone(), eof });
     let mut outs = Vec::new();
     for call in get(&kv, "calls").unwrap_or("").split(',').filter(|s| !s.is_empty()) {
         let (buf_len, avail) = call.split_once('@').ok_or("bad call")?;
